@@ -135,6 +135,7 @@ type Frame struct {
 	callerF *Frame
 	mods    []modEntry
 	lockObjs []*LVal
+	noInline bool
 	curBlock *ssa.BasicBlock
 	sites   map[*ssa.Function]int
 	siteN   map[string]int
@@ -215,6 +216,11 @@ func (f *Frame) typeInv(term string, t types.Type) {
 		f.e.assume(app("slice_ok", term))
 	case *types.Interface:
 		f.e.assume(app("iface_ok", term))
+		if n, ok := t.(*types.Named); ok && n.Obj().Pkg() != nil && strings.HasPrefix(n.Obj().Pkg().Path(), modulePath) {
+			// module interfaces (Object, Expression, ...): dynamic values are created with &T{...} only - no typed nil pointers
+			f.e.note("assumed: values of the module's interface types never hold a typed nil pointer")
+			f.e.assume(implies(not(eq(app("i_tag", term), "0")), not(eq(app("i_val", term), "0"))))
+		}
 	case *types.Basic:
 		b := t.Underlying().(*types.Basic)
 		if b.Info()&types.IsUnsigned != 0 {
@@ -430,7 +436,8 @@ func (f *Frame) safety(b *ssa.BasicBlock, kind string, ins ssa.Instruction, cond
 		return
 	}
 	g := f.guard[b]
-	if f.e.nopanic {
+	if f.e.nopanic && f.callerF == nil {
+		// (sites inside inlined callees are the callee's own obligations when it is swept itself)
 		src := srcText(f.e.prog.Fset, ins)
 		name := fmt.Sprintf("%s:%s[%s]", funcDisplay(f.fn), kind, src)
 		if f.callerF != nil {
@@ -980,7 +987,7 @@ func (f *Frame) execInstr(b *ssa.BasicBlock, instr ssa.Instruction, st *State, g
 		f.rets = append(f.rets, retInfo{guard: g, vals: vs, st: st.clone(), pos: in.Pos(), idx: len(f.rets), block: b})
 	case *ssa.Panic:
 		f.panics = append(f.panics, retInfo{guard: g, st: st.clone(), pos: in.Pos(), block: b})
-		if e.nopanic {
+		if e.nopanic && f.callerF == nil {
 			name := fmt.Sprintf("%s:panic[%s]", funcDisplay(f.fn), srcText(e.prog.Fset, in))
 			if f.callerF != nil {
 				name = fmt.Sprintf("%s@%s", name, funcDisplay(f.stack[0]))
